@@ -106,6 +106,10 @@ def random_case(rng, tier):
             ops.append(['advance', rng.randint(1, 6)])
         else:
             ops.append(['restart'])
+    if rng.random() < 0.2:
+        # from some point on one of the processes cannot be saved any more (it emitted an output that cannot be copied): a
+        # save that fails must leave what is stored under the key as it was
+        ops.insert(rng.randint(1, max(1, len(ops) - 1)), ['spoil', rng.randrange(n_procs)])
     case = {'pid_kind': rng.choice(['int', 'uuid', 'str']), 'programs': progs, 'ops': ops, 'faults': faults}
     if rng.random() < 0.3:
         case['instances'] = [rng.randrange(2) for _ in range(rng.randint(2, 7))]  # which of two pickle persisters each call uses
@@ -257,7 +261,18 @@ def run(case):
             if name in ('save', 'save_fault'):
                 proc, tag = procs[op[1]], tags[op[2]]
                 key = (proc.pid, tag)
-                snapshot = canon.canon(plumpy.Bundle(proc))
+                try:
+                    snapshot = canon.canon(plumpy.Bundle(proc))
+                except Exception:  # noqa: BLE001 - the process cannot be saved (see 'spoil')
+                    result.counters['probe:save_of_unsavable_process'] += 1
+                    touched = True
+                    for which, persister in (('memory', memory), ('pickle', pickles)):
+                        status, value = _call(persister.save_checkpoint, proc, tag)
+                        if status == 'ok':
+                            result.violate('save_raises', f'{which}:unsavable_saved', f'{which}: a process that cannot be '
+                                                                                       f'bundled was saved without an error')
+                    events.append(('save_unsavable', op_index))
+                    continue  # nothing stored changes: the model keeps what was there
                 in_memory = _call(memory.save_checkpoint, proc, tag)
                 if name == 'save_fault':
                     disk.armed = (op[3], op[4])
@@ -424,6 +439,11 @@ def run(case):
                             loop.run_until_quiescent() if False else None
                     for key in progressed_since_save:
                         progressed_since_save[key] = True
+            elif name == 'spoil':
+                proc = procs[op[1]]
+                if not proc.has_terminated():
+                    proc.out('spoiled', (item for item in ()))  # a generator can be neither copied nor pickled
+                    events.append(('spoiled', op_index))
             elif name == 'restart':
                 pickles = _pickle_store(plumpy, directory, case.get('instances'))
             else:
